@@ -136,7 +136,8 @@ def expected_attrs(info_kw, cls, L):
 def single_templates(tier):
     out = []
     plist = QUICK_PARAMS if tier == "quick" else list(PARAMS)
-    Ls = (1, 3) if tier == "quick" else (1, 2, 4)
+    # lengths on both sides of the global minimum overlaps (3 and 5): an anchored adapter's overlap is its own length
+    Ls = (1, 4) if tier == "quick" else (1, 2, 4, 6)
     for atype in ("back", "front", "anywhere"):
         for pre in ("", "^", "X"):
             for post in ("", "$", "X"):
